@@ -191,6 +191,21 @@ class Scenario:
                 return False
             nw.deliver(s1.fs, data, run=False)
             nw.deliver(s2.fs, d2)
+        elif kind == "mcut":
+            # ("mcut", c, name1, name2): one read holds message 1 complete and the first 28 bytes of message 2 (its header and the start of
+            # its body); the rest of message 2 arrives with the next "mcut" event on that socket
+            s = self.sock(ev[1])
+            if s is None or (s.fs.connecting and (not s.fs.conn_done or s.fs.so_error)):
+                return False
+            if not getattr(s, "frags", None):
+                d1 = self.message(s, ev[2])
+                if d1 is None:
+                    return False
+                d2 = self.message(s, ev[3])
+                if d2 is None:
+                    return False
+                s.frags = [d1 + d2[:28], d2[28:]]
+            nw.deliver(s.fs, s.frags.pop(0))
         elif kind in ("mfrag", "mtiny"):
             # deliver the next third of message ev[2] on socket ev[1] (a message trickling in over several reads);
             # "mtiny": the first read carries 12 bytes only (less than a header), the second the rest
